@@ -17,6 +17,7 @@ EXPLANATION = (
     "the owning context lives); the core store is created per FunctionContext and there is no module- or "
     "contract-level store. It does not run query sequences or the garbage collector."
     ' Also evaluated here: refinement exactness (C04 R04.2): refined queries keep their assertion ids and named assertions.'
+    " Round 4: the solving context's core store is its own default list (never handed in from a longer-lived object)."
 )
 ASSUMPTIONS = [
     "z3 AST ids are unique among live terms of one context",
